@@ -327,7 +327,15 @@ class Scheduler:
                 t.start()
             self.cur = 0
             self.sems[0].release()
-            ok = self.done.acquire(timeout=wall_timeout)
+            # the watchdog measures progress, not speed: as long as the step counter moves, the schedule is running (on a
+            # loaded machine slowly) and is bounded by max_steps; only a schedule that stands still for wall_timeout is stuck
+            ok = False
+            last_step = -1
+            for _ in range(40):
+                ok = self.done.acquire(timeout=wall_timeout)
+                if ok or self.step == last_step:
+                    break
+                last_step = self.step
             if not ok:
                 self._abort('wall clock watchdog')
                 self.errors.append((-1, 'watchdog', 'run did not finish'))
